@@ -3514,10 +3514,14 @@ def _loops_behind(res, exprs, nid, elementwise=True):
     seen = set()
     todo = [(e, nid) for e in exprs]
 
+    here = set(g.nodes[nid].loops)
+
     def picked(n):
-        # the definition is control dependent on a test inside a loop
-        return any(set(g.nodes[t].loops) & set(n.loops)
-                   for t, lab in guards(g, n.id))
+        # the definition is control dependent on a test inside a loop that
+        # does not contain the place the value is used at
+        away = set(n.loops) - here
+        return bool(away) and any(set(g.nodes[t].loops) & away
+                                  for t, lab in guards(g, n.id))
 
     while todo:
         e, at = todo.pop()
